@@ -96,12 +96,6 @@ def sparse_int_matrix(r, N, sym, density):
 
 
 def build_line(spec):
-    line = build_line0(spec)
-    v = os.environ.get("VERIF_C10_VARIANT")        # only for validating a proposed patch in a scratch copy
-    return line.replace(" N=", " variant=%s N=" % v, 1) if v else line
-
-
-def build_line0(spec):
     F = spec["pts"]
     N = len(F)
     D = spec["D"]
@@ -149,7 +143,7 @@ def what_text(spec, text):
 
 def plan_fn(ctx, r, quick):
     plan = []
-    reps = 1 if quick else 12
+    reps = 3 if quick else 24
     for _ in range(reps):
         for m in ("npe", "lltsa", "lpp"):
             plan += [(m, m, None)] * 14
